@@ -287,6 +287,14 @@ def sig_digits(text):
     return d, e10
 
 
+def min_chars(nd, k):
+    """fewest characters to write D * 10^k (D: nd digits, no trailing zero) in printf %f or %e style"""
+    fixed = nd + k if k >= 0 else (nd + 1 if k > -nd else 2 - k)
+    E = k + nd - 1
+    sci = (1 if nd == 1 else nd + 1) + 2 + (3 if abs(E) >= 100 else 2)
+    return min(fixed, sci)
+
+
 def fp_rt_ok(T, bits, ans):
     """is 'OK <units> <back>' a lossless shortest text for the value with these bits?  returns (ok, why)"""
     f = ans.split(" ")
@@ -319,15 +327,23 @@ def fp_rt_ok(T, bits, ans):
     if sd is None:
         return False, "unexpected text form"
     d, e10 = sd
-    if len(d) > 1:
-        base = int(d[:-1])
-        for cand in (base, base + 1):
-            v = Fraction(cand) * Fraction(10) ** (e10 - (len(d) - 1))
-            if x < 0:
-                v = -v
-            kind, r = N.rne_fraction(v, T)
-            if kind == "ok" and N.fp_bits(T, r) == canon and r != 0:
-                return False, "not the shortest: %d digits suffice" % (len(d) - 1)
+    tlen = len(text) - (1 if text.startswith("-") else 0)
+    ax = abs(Fraction(x))
+    for n in range(1, len(d)):
+        # the two n-digit decimals around the value
+        k = e10 - n
+        scaled = ax / Fraction(10) ** k
+        fl_ = scaled.numerator // scaled.denominator
+        for cand in (fl_, fl_ + 1):
+            if cand == 0:
+                continue
+            v = Fraction(cand) * Fraction(10) ** k
+            kind, r = N.rne_fraction(-v if x < 0 else v, T)
+            if kind == "ok" and N.fp_bits(T, r) == canon:
+                cs = str(cand).rstrip("0")
+                kk = k + len(str(cand)) - len(cs)
+                if min_chars(len(cs), kk) < tlen:
+                    return False, "not the shortest: %se%d reads back as the value and needs only %d characters" % (cs, kk, min_chars(len(cs), kk))
     return True, ""
 
 
